@@ -80,6 +80,18 @@ theorem C11_parse (pre : List (Str × Str)) (name : Str) (s : Spec)
     parseVars (renderRoot pre name s) = .ok (expectVars s) :=
   parseVars_render pre name s hok hres hv hd
 
+/-- **Declared type** — what `dtype := dap4ToNumpy tag` in `expectVar` (hence in `C11_parse`) *is*, against a table
+    written here from the DAP4 specification and not taken from pydap: every variable tag the parser keeps
+    (`varTags`: the atomic types and `String`) has an entry, and the entry is the big-endian numpy type of the declared
+    kind and width (`Byte` = unsigned 8 bit, spelled `B`; `Char` = unsigned 8 bit; `String` = pydap's fixed `|S128`).
+    Complete finite table (regenerated from lib.py on every run). -/
+theorem C11_type_table :
+    (∀ t ∈ varTags, (dap4ToNumpy t).isSome) ∧
+    ∀ d ∈ [("Int8", ">i1"), ("UInt8", ">u1"), ("Byte", "B"), ("Char", ">u1"), ("Int16", ">i2"), ("UInt16", ">u2"),
+           ("Int32", ">i4"), ("UInt32", ">u4"), ("Int64", ">i8"), ("UInt64", ">u8"), ("Float32", ">f4"),
+           ("Float64", ">f8"), ("String", "|S128")],
+      d.1.toList ∈ varTags ∧ dap4ToNumpy d.1.toList = some d.2.toList := by decide
+
 /-- the guard of `C11_parse` spelled out (`Spec.ok` = the property's domain `Spec.ok0` + `Spec.noReserved`): the
     `_partial` half of the pair.  The guard is slightly wider than the failing class: it also excludes an attribute
     named `path` on a *root-level* variable, which pydap keeps (example below; covered by the correspondence). -/
